@@ -454,10 +454,12 @@ QXmppConfiguration &QXmppClient::configuration()
 void QXmppClient::connectToServer(const QXmppConfiguration &config,
                                   const QXmppPresence &initialPresence)
 {
-    // reset package cache from last connection
-    if (d->stream->configuration().jidBare() != config.jidBare()) {
+    // reset package cache from last connection if another account is used now
+    // (compare what the application configured: the address bound by the server may differ)
+    if (d->configuredJidBare != config.jidBare()) {
         d->stream->streamAckManager().resetCache();
     }
+    d->configuredJidBare = config.jidBare();
 
     d->stream->configuration() = config;
     d->clientPresence = initialPresence;
